@@ -73,19 +73,28 @@ def accessor_results(a, b):
         return []
 
 
-def check_pure(spec, ha, hb, opname, muts, reloaded=False):
+def check_pure(spec, ha, hb, opname, muts, reloaded=False, np0=False):
     """Apply one pure operation to fresh operands a, b; then every mutator to each returned container and to the
     operands; observable states of the untouched objects must not change. reloaded: the operands are JSON reloads
     (immutable form: they cannot be filled, but they can still be merged into in place)."""
     import histogrammar as hg
 
     args = {"spec": spec, "ha": core.show_evs(ha), "hb": core.show_evs(hb), "op": opname, "muts": core.show_evs(muts),
-            "reloaded": reloaded}
+            "reloaded": reloaded, "np0": np0}
     out = []
     op = dict(pure_ops(spec))[opname]
 
     def fresh():
         a, b = core.mk(spec, ha), core.mk(spec, hb)
+        if np0:
+            # a vectorised fill whose rows all have weight 0 adds nothing, but may book (empty) sparse bins / categories
+            import numpy as np
+
+            from .c03 import norm_rec, to_batch
+
+            rows = [norm_rec(r) for r, _ in muts[:3]]
+            for o in (a, b):
+                o.fill.numpy(to_batch(rows), np.zeros(len(rows)))
         if reloaded:
             a, b = hg.Factory.fromJson(a.toJson()), hg.Factory.fromJson(b.toJson())
         return a, b, a.toJson(), b.toJson()
@@ -408,6 +417,7 @@ def _tree(task):
     acc.n("states", len(hists))
     muts = evs[:3] if tier == "quick" else evs
     ops = [nm for nm, _ in pure_ops(spec)]
+    sparse = any(n["t"] in ("Categorize", "SparselyBin") for _, _, n in S.node_ids(spec))
     for ha, hb in itertools.product(hists, hists):
         for opname in ops:
             if opname not in ("a+b", "b+a", "combine(a,b)", "combine(b,a)", "eq/hash/repr") and hb is not hists[0]:
@@ -422,6 +432,10 @@ def _tree(task):
                 acc.add(check_pure(spec, ha, hb, opname, m, reloaded=True))
                 acc.n("pure_op_cases")
                 acc.n("pure_op_cases_on_reloaded_operands")
+            if sparse and S.fields(spec) and opname in ("a+b", "eq/hash/repr", "copy", "toJson", "accessors", "zero"):
+                acc.add(check_pure(spec, ha, hb, opname, m, np0=True))
+                acc.n("pure_op_cases")
+                acc.n("pure_op_cases_after_zero_weight_batch")
             acc.n("transitions", 2 + 2 * (len(m) + 2))
             acc.distinct("cases", FW.hkey((S.key(spec), repr(core.show_evs(ha)), repr(core.show_evs(hb)), opname)))
     if len(hists) > 1:
@@ -502,4 +516,4 @@ def replay(driver, args):
     if "df_method" in args:
         return check_dfmethod(args["df_method"])
     return check_pure(args["spec"], core.unshow_evs(args["ha"]), core.unshow_evs(args["hb"]), args["op"],
-                      core.unshow_evs(args["muts"]), args.get("reloaded", False))
+                      core.unshow_evs(args["muts"]), args.get("reloaded", False), args.get("np0", False))
